@@ -82,6 +82,27 @@ class NumpyProxy(object):
         a.fill(S.const(0))
         return a
 
+    def _elementwise(self, name, coqname, x):
+        if not S.has_sym(x) and not (isinstance(x, _np.ndarray) and x.dtype == object):
+            return getattr(self._real, name)(x)
+        if isinstance(x, Sym):
+            return S.fn(coqname, x)
+        arr = _np.asarray(x, dtype=object)
+        out = _np.empty(arr.shape, dtype=object)
+        for idx in _np.ndindex(arr.shape):
+            out[idx] = S.fn(coqname, S.lift(arr[idx]))
+        return out
+
+    def arccos(self, x):
+        return self._elementwise('arccos', 'acos', x)
+
+    def arcsin(self, x):
+        return self._elementwise('arcsin', 'asin', x)
+
+    @staticmethod
+    def empty(shape, dtype=None):
+        return _np.empty(shape, dtype=object)
+
     @staticmethod
     def eye(n, m=None):
         m = n if m is None else m
@@ -440,12 +461,30 @@ def structure_tracer():
                         extra_defs={'FormFactor_coeffs': FormFactor_coeffs})
 
 
+def symmetry_tracer():
+    import xfab.symmetry as sy
+
+    def Umis_one(umat_1, umat_2, rot):
+        """Umis for a one-element symmetry list containing the (symbolic) rotation rot: the angle column"""
+        saved = sy.ROTATIONS
+        r = _np.empty((1, 3, 3), dtype=object)
+        r[0] = _np.asarray(rot, dtype=object)
+        sy.ROTATIONS = [None, r]
+        try:
+            return sy.Umis(umat_1, umat_2, 1)[0, 1]
+        finally:
+            sy.ROTATIONS = saved
+    sigs = [('Umis_one', ['M3', 'M3', 'M3'], 'R')]
+    return ModuleTracer('xfab.symmetry', 'symmetry_', sigs, 'np', extra_defs={'Umis_one': Umis_one})
+
+
 def make_tracers():
     return [
         ModuleTracer('xfab.tools', 'tools_', SIG_TL, 'n'),
         ModuleTracer('xfab.laue', 'laue_', SIG_TL, 'np'),
         ModuleTracer('xfab.detector', 'detector_', detector_sigs(), 'n'),
         structure_tracer(),
+        symmetry_tracer(),
     ]
 
 
